@@ -257,6 +257,11 @@ def volume (args : List String) : String :=
       | none => s!"err PyFAT:28 hint={hint} fat={fnv fat}"
       | some r => s!"ok {showNatList r.clusters} {r.hint} {fnv r.fat}"
     | _, _, _, _, _, _, _, _ => "bad-op"
+  | ["writeclusters", bpc, size, pos, bs, cs] =>
+    match bpc.toNat?, size.toNat?, pos.toNat?, parseHex bs, (cs.splitOn ",").mapM parseHex with
+    | some bpc, some size, some pos, some bs, some cs =>
+      "ok " ++ ",".intercalate ((FatIO.writeClusters bpc cs size pos bs).map toHex)
+    | _, _, _, _, _ => "bad-op"
   | ["chain", ty, start, fat] =>
     match ty.toNat?, start.toNat?, parseNatList fat with
     | some ty, some start, some fat => showWalk (Alloc.chainOf (Alloc.params ty) fat start)
